@@ -9,6 +9,36 @@ Theorem c06_correlation_status_shape : forall x, spec x (accept x).
 Proof. exact c06_holds. Qed.
 Print Assumptions c06_correlation_status_shape.
 
+(* C06 over deliveries: whatever binding the caller names (HTTP-POST, HTTP-Redirect, HTTP-Artifact, SOAP,
+   PAOS) and whatever the Response's Destination, the decision satisfies the status / version / shape
+   clauses; over the browser bindings (POST, Redirect) it satisfies the correlation clause, and, when the
+   Response is unaddressed or addressed to that binding's consumer endpoint, the two completeness clauses *)
+Theorem c06_delivery : forall y, spec_d y (receive y).
+Proof. exact c06_delivery_holds. Qed.
+Print Assumptions c06_delivery.
+
+(* the two browser bindings are treated alike and as an asynchronous hop: the decision is [accept], in which
+   the binding does not occur (so neither of them is handled as a back channel) *)
+Theorem c06_browser_bindings_alike : forall y,
+  browser (via y) = true -> well_addressed y = true -> receive y = accept (resp y).
+Proof. exact browser_is_accept. Qed.
+Print Assumptions c06_browser_bindings_alike.
+
+(* what the browser-binding guard of the correlation clause leaves out, as coded: over the SOAP back channel
+   no request context is handed back and the outstanding set / allow_unsolicited are not consulted *)
+Theorem c06_back_channel_uncorrelated : forall y cf, via y = Soap -> receive y = Identity cf -> cf = None.
+Proof. exact back_channel_uncorrelated. Qed.
+Print Assumptions c06_back_channel_uncorrelated.
+
+Theorem c06_back_channel_ignores_outstanding : forall y o a,
+  via y = Soap ->
+  receive {| via := Soap; dest := dest y;
+             resp := {| allow_unsolicited := a; outstanding := o; irt := irt (resp y); version := version (resp y);
+                        status_top := status_top (resp y); status_second := status_second (resp y);
+                        assertions := assertions (resp y) |} |} = receive y.
+Proof. exact back_channel_ignores_outstanding. Qed.
+Print Assumptions c06_back_channel_ignores_outstanding.
+
 (* regenerated-table obligations: every defined status code maps to the error class its name
    demands; codes and classes are pairwise distinct; the table covers all 21 codes *)
 Theorem c06_table_names :
@@ -26,6 +56,10 @@ Print Assumptions c06_table_injective.
 Theorem c06_spec_b_sound : forall x v, spec_b x v = true -> spec x v.
 Proof. exact spec_b_sound. Qed.
 Print Assumptions c06_spec_b_sound.
+
+Theorem c06_delivery_spec_b_sound : forall y v, spec_d_b y v = true -> spec_d y v.
+Proof. exact spec_d_b_sound. Qed.
+Print Assumptions c06_delivery_spec_b_sound.
 
 (* tie to the source TEXT: AuthnResponse.check_subject_confirmation_in_response_to as translated from
    /repo's current source on this run (coq/gen/C06Src.v, harness/py2coq.py) computes the model's
